@@ -45,7 +45,7 @@ var profMap = &Profile{
 }
 
 var profDurable = &Profile{
-	Name: "C02-durable", MinOps: 2, MaxOps: 50, NColls: 3, BigKeys: true, BigVals: true,
+	Name: "C02-durable", MinOps: 2, MaxOps: 50, NColls: 3, BigKeys: true, BigVals: true, Hostile: true, HugeNames: true,
 	Kinds: []wk{{OpSet, 30}, {OpSetR, 4}, {OpDel, 12}, {OpFlush, 14}, {OpEvict, 4}, {OpReopen, 9}, {OpSetColl, 4}, {OpRmColl, 3}, {OpNames, 1}, {OpRevert, 3}, {OpWrite, 2}, {OpGet, 3}},
 }
 
@@ -62,12 +62,12 @@ var profRange = &Profile{
 }
 
 var profRevert = &Profile{
-	Name: "C08-revert", MinOps: 2, MaxOps: 40, NColls: 2, MemPct: 8, BigVals: true,
+	Name: "C08-revert", MinOps: 2, MaxOps: 40, NColls: 2, MemPct: 8, BigVals: true, Hostile: true,
 	Kinds: []wk{{OpSet, 30}, {OpDel, 8}, {OpFlush, 20}, {OpRevert, 20}, {OpReopen, 8}, {OpEvict, 3}, {OpSetColl, 2}, {OpRmColl, 2}, {OpWrite, 2}, {OpGet, 2}},
 }
 
 var profMonitor = &Profile{
-	Name: "C09-monitor", MinOps: 3, MaxOps: 45, NColls: 2, Snaps: true, BigVals: true, EndOnly: 50,
+	Name: "C09-monitor", MinOps: 3, MaxOps: 45, NColls: 2, Snaps: true, BigVals: true, EndOnly: 50, Hostile: true,
 	Kinds: []wk{{OpSet, 26}, {OpSetR, 2}, {OpDel, 8}, {OpFlush, 12}, {OpRevert, 6}, {OpReopen, 6}, {OpEvict, 6}, {OpGet, 4}, {OpGetItem, 3}, {OpExist, 1},
 		{OpMin, 2}, {OpMax, 1}, {OpTotals, 1}, {OpLen, 1}, {OpVisit, 8}, {OpBlock, 1}, {OpRandom, 1}, {OpSnap, 4}, {OpSnapClose, 3}, {OpSnapRev, 2},
 		{OpCopyTo, 3}, {OpSetColl, 2}, {OpRmColl, 1}, {OpWrite, 3}, {OpSnapBad, 3}, {OpNames, 1}},
@@ -85,7 +85,7 @@ var profCopy = &Profile{
 }
 
 var profNames = &Profile{
-	Name: "C12-names", MinOps: 2, MaxOps: 45, NColls: 4, MemPct: 15, Cmps: true,
+	Name: "C12-names", MinOps: 2, MaxOps: 45, NColls: 4, MemPct: 15, Cmps: true, HugeNames: true,
 	Kinds: []wk{{OpSetColl, 20}, {OpRmColl, 12}, {OpNames, 6}, {OpSet, 26}, {OpDel, 8}, {OpFlush, 8}, {OpReopen, 6}, {OpEvict, 3}, {OpChurn, 5}, {OpGet, 3}},
 }
 
@@ -95,7 +95,7 @@ var profTree = &Profile{
 }
 
 var profFormat = &Profile{
-	Name: "C14-format", MinOps: 2, MaxOps: 40, NColls: 4, BigKeys: true, BigVals: true, Hostile: true, Cmps: true,
+	Name: "C14-format", MinOps: 2, MaxOps: 40, NColls: 4, BigKeys: true, BigVals: true, Hostile: true, Cmps: true, HugeNames: true,
 	Kinds: []wk{{OpSet, 36}, {OpSetR, 3}, {OpDel, 10}, {OpFlush, 18}, {OpEvict, 4}, {OpReopen, 6}, {OpSetColl, 6}, {OpRmColl, 3}, {OpCopyTo, 4}, {OpRevert, 3}},
 }
 
